@@ -18,7 +18,7 @@ MANIFEST = {
              "before the callback; combined = search overlaid by advertisement), hence C04.ok on every model trace (c04_history); "
              "same_headers_differ, location_changed and combined_headers are proved equal to their declarative readings. Tied to "
              "the code by generated constants (IGNORED_HEADERS, private prefix) and by the per-event differential check through "
-             "the real listener stack with both the synchronous and the coroutine callback. New in round 2: combined_keywise (header by header: advertisement value if present else search value), stored_headers_nodup, combined_keywise_notified (no side hypothesis left), c04_history_raw on raw decoded headers."),
+             "the real listener stack with both the synchronous and the coroutine callback. New in round 2: combined_keywise (header by header: advertisement value if present else search value), stored_headers_nodup, combined_keywise_notified (no side hypothesis left), c04_history_raw on raw decoded headers. Round 4: saturation and IPv6 recogniser as in C03; ipv6_after_ipv4_is_no_change."),
     "note": ("Trusted: Lean kernel + standard axioms; header maps are the abstract maps of C16 (ASCII names); "
              "ip_version_from_location is hand-modelled for the generator's URL grammar; whether a location whose own validity "
              "lapsed still counts as known is left open by the text and both readings are accepted by the judge; "
